@@ -310,3 +310,29 @@ def lr_next_token_table(F, res, rid):
         res.ok(rid, "next-token/table", where, "%d rows: lexer token first; layout retry only on progress; synthetic STOP iff "
                "partial_parse and STOP expected; else error" % len(rows))
     return f, rows
+
+
+def token_mutators(F, res, rid):
+    """who may change the candidate tokens between the lexer and the parser (shared by C06-R4, C07-S4 and C03-R8)"""
+    from .mir import TermBuilder, callee
+    rid4 = rid
+    for fn_rx, nm in ((GLR + "find_lookaheads$", "glr"), (LR_NEXT, "lr")):
+        fx = F.one(fn_rx)
+        tbx = TermBuilder(fx, F)
+        extra = []
+        for b, tm in fx.calls():
+            c = callee(tm)
+            if not tm["args"] or tm["args"][0]["k"] not in ("copy", "move"):
+                continue
+            ty = fx.local_ty(tm["args"][0]["p"]["l"])
+            if not (ty.startswith("&mut") and "Vec<" in ty and "Token<" in ty):
+                continue
+            m = mir.strip_generics(c).rsplit("::", 1)[-1]
+            if m in ("retain", "truncate", "iter_mut", "deref_mut", "as_mut_slice", "push", "extend", "reserve", "iter", "len", "is_empty", "deref"):
+                continue
+            extra.append("%s (%s:%s)" % (m, fx.file, tm.get("line")))
+        if extra:
+            res.violation(rid4, "%s/token-mutators" % nm, "the candidate tokens are also changed by %s: lexical alternatives are dropped or "
+                          "reordered outside the documented strategies (longest match, grammar order)" % ", ".join(extra[:3]), fx.loc())
+        else:
+            res.ok(rid4, "%s/token-mutators" % nm, fx.loc(), "only retain / truncate take tokens out")
